@@ -19,8 +19,6 @@ NOT_APPLICABLE = {
     "C07": "check not built yet in this session (planned, DESIGN.md section 3)",
     "C11": "check not built yet in this session (planned, DESIGN.md section 3)",
     "C17": "check not built yet in this session (planned, DESIGN.md section 3)",
-    "C19": "check not built yet in this session (planned, DESIGN.md section 3)",
-    "C25": "check not built yet in this session (planned, DESIGN.md section 3)",
 }
 
 NOTES = ("All checks share one pipeline (./check <id>): rsync /repo's working tree to a scratch dir, instrument with simgo, "
@@ -91,5 +89,17 @@ CHECK_META = {
         design_ref="DESIGN.md section 3, C06",
         text="exploration: seeded sets of colliding / failing / erroring other programs loaded, replaced and removed while lines flow; differential against a solo run of the observed program",
         note="sampling; one known finding (one-shot Exporter.Write with same-name different-keys metrics) is avoided in 3 runs of 4 and reported as KNOWN-FINDING by the 4th",
+    ),
+    "C19": dict(
+        technique="deterministic simulation of the whole one-shot server under the seeded scheduler; bounded liveness (Run returns within a step budget, no task left) and conservation against independently split file contents",
+        design_ref="DESIGN.md section 3, C19",
+        text="exploration: seeded programs x files x interleavings of every goroutine of the pipeline; termination and exactly-once/in-order witnesses",
+        note="sampling; bounded liveness is stated in scheduler steps, not wall time",
+    ),
+    "C25": dict(
+        technique="deterministic simulation of the whole server with simulated pollers under the seeded scheduler; conservation between expvar deltas and independently witnessed events",
+        design_ref="DESIGN.md section 3, C25",
+        text="exploration: seeded log and program-directory histories; every self-monitoring counter compared with the harness's own event count after every action",
+        note="sampling; newline-terminated lines only; accessor file for the server's runtime added in the scratch copy",
     ),
 }
